@@ -456,6 +456,30 @@ def check_C12(tier):
                    extra_cov={'exhaustive': True, 'exhaustive_note': 'the 2x1 kernel-level interleavings are enumerated completely; everything else is sampling'}, min_eval=500)
 
 
+def _g4bin():
+    ext = os.path.join(REPO, 'extensions/bxdecay0_g4')
+    srcs = ['checks/g4check.cc'] + [os.path.join(ext, 'bxdecay0_g4', f) for f in ('primary_generator_action.cc', 'unique_point_vertex_generator.cc', 'vertex_generator_interface.cc')]
+    # the stand-in directory comes first so that its trivial messenger headers shadow the real UI layer
+    return compile_bin('g4check', srcs, 'fast', inc=[os.path.join(ROOT, 'g4stub'), ext])
+
+
+def check_C17(tier):
+    t0 = time.time()
+    b = _g4bin()
+    cases = '400000' if tier == 'thorough' else '40000'
+    agg = Agg('C17')
+    agg.add(run_native(b, ['--seed', str(seed()), '--cases', cases, '--known', known_tsv('C17')], NCPU, 'C17'))
+    rule = ('case = a valid request (published background name or one of 10 valid DBD triples / any published isotope at level 0 mode 1, seed, 1-4 events, optional MDL incl. rectangular cut) with 0-2 mutations '
+            '(bad/missing category, unpublished / prefix-extended / cross-category / empty nuclide, seed 0 or negative, mode outside 1..24 or another mode, level -1/9/17/99, valid / inverted window, bad MDL label) x '
+            'vertex generator (none, unique point, scripted sequence, exhausted); the extension sources are compiled unchanged against the Geant4 stand-in; oracle: the core tools on the same request '
+            '(driver-style catalogue checks + decay0_generator::initialize on std::default_random_engine(seed)): core refuses <=> action refuses (AbortRun or exception, no primaries); accepted: one primary per '
+            'particle in order, species <-> definition, momentum/MeV and time/second equal to 1e-12, common vertex from the vertex generator (origin if none); '
+            'distinct = (outcome, mutation class, category, nuclide, vertex kind)')
+    return verdict(agg, tier, t0, rule, ['decided against a minimal stand-in for G4ThreeVector, G4ParticleGun (protected members the extension resets, the setters it calls, GeneratePrimaryVertex appending to the event), '
+                                         'particle definitions, CLHEP unit constants (MeV=1, second=1e9), G4RunManager::AbortRun (recorded), G4Exception (recorded), G4Event, trivial messenger headers',
+                                         'for the seed only "core refuses => action refuses" is asserted (the extension documents seed >= 1)'], min_eval=5000)
+
+
 def check_C08(tier):
     """sanitizer builds (ASan+UBSan+_GLIBCXX_ASSERTIONS) of the generation drivers + structure-aware libFuzzer target"""
     t0 = time.time()
@@ -515,6 +539,8 @@ def replay(prop, path):
     if prop == 'C12':
         b = compile_bin('threads', ['checks/threads.cc'], 'fast')
         return subprocess.run([b, '--replay', path], env=run_env()).returncode
+    if prop == 'C17':
+        return subprocess.run([_g4bin(), '--replay', path], env=run_env()).returncode
     if prop == 'C10':
         b = compile_bin('mdlcheck', ['checks/mdlcheck.cc'], 'fast')
         return subprocess.run([b, '--replay', path], env=run_env()).returncode
@@ -542,3 +568,10 @@ def setup_all():
     compile_bin('fuzz_shoot', ['fuzz/fuzz_shoot.cc'], 'fuzz', inc=[os.path.join(ROOT, 'fuzz'), refd])
     for name, src, _ in C15_TARGETS:
         compile_bin(name, [src], 'fuzz', inc=[os.path.join(ROOT, 'fuzz'), refd])
+    vlib.build_variant('tsan')
+    compile_bin('threads', ['checks/threads.cc'], 'fast')
+    compile_bin('threads', ['checks/threads.cc'], 'tsan')
+    compile_bin('api_ref', ['checks/api_ref.cc'], 'fast')
+    _killshim()
+    compile_bin('gacheck', ['checks/gacheck.cc'], 'san')
+    _g4bin()
